@@ -1,0 +1,7 @@
+// +build !verif
+
+package sleep
+
+// Registry hooks used only by the verif build; no-ops here.
+func verifRegister(*Sleeper)   {}
+func verifUnregister(*Sleeper) {}
